@@ -2796,6 +2796,7 @@ func (w *World) finish() {
 	w.mu.Unlock()
 	w.tr.Frames = w.net.Frames()
 	w.tr.Panics = append(w.tr.Panics, w.net.Panics()...)
+	w.tr.Misuse = w.net.Misuse()
 	w.mu.Lock()
 	w.tr.Steps = w.step
 	w.mu.Unlock()
